@@ -126,10 +126,57 @@ def gen_scenario(rng, guards, soft_ok=False, listen=None, allow_null_fallback=Fa
     return "\n".join(L) + "\n"
 
 
-def _cfg(rng, w, h, defer, lis, maxwait, guards, sndbuf=0):
-    return "cfg %d %d %d %d %d %d %d %d 400000 %d %d %d %d" % (
+def _cfg(rng, w, h, defer, lis, maxwait, guards, sndbuf=0, sharing=0):
+    return "cfg %d %d %d %d %d %d %d %d 400000 %d %d %d %d %d" % (
         w, h, defer, lis, maxwait, rng.getrandbits(40), rng.choice([0, 1, 2]), rng.randint(1, 4), rng.choice([50, 80, 95]),
-        rng.choice([300, 1000, 3000]), guards, sndbuf)
+        rng.choice([300, 1000, 3000]), guards, sndbuf, sharing)
+
+
+def fam_nonshared(rng, guards):
+    """a second client sends ClientInit shared=0 (or the screen is neverShared) while a first one is
+    served: with dontDisconnect the new client is refused, otherwise the old one is closed (both by a
+    client iterator in the new client's input thread); afterwards the first client leaves or the server
+    shuts down: every reference taken by that iterator must have been given back"""
+    out = []
+    for lis in (0, 1):
+        for sharing, flag in ((1, 4), (3, 0), (0, 4), (2, 0), (4, 4), (5, 4)):
+            for leave in ("drop", "stay"):
+                L = ["# noinclusion (the input thread of a client walks the client list: not in the model)",
+                     _cfg(rng, 16, 8, rng.choice([1, 2, 5]), lis, 300, guards, 0, sharing),
+                     "peer 0 stay 0 0 0", "peer 1 stay 0 0 %d" % flag, "connect 0", "sleep 200", "connect 1", "sleep 300",
+                     "mark 1 1 4 4 %d" % rng.getrandbits(20), "sleep 100"]
+                if leave == "drop": L += ["drop 0", "sleep 300"]
+                L += [rng.choice(["bell", "iter", "sleep 5"]), "settle 2000", "shutdown", "cleanup"]
+                out.append(("fam-nonshared", "\n".join(L) + "\n", None))
+    return out
+
+
+def fam_inflight(rng, guards):
+    """a slow reader has a large Raw update in flight (more than one update buffer, socket buffer full),
+    its connection is half-closed, and inside that window the application replaces the framebuffer
+    (the harness frees the old one) / a new client connects; then the reader drains.  Oracles: ASan on
+    the old framebuffer, no descriptor closed while another thread waits on it, no client thread
+    writing to another client's socket"""
+    out = []
+    for lis in (0, 1):
+        for (w, h) in ((128, 128), (96, 96)):
+            for gap in (100, 1000):
+                L = [_cfg(rng, w, h, 2, lis, rng.choice([300, 1000]), guards, 2048),
+                     "peer 0 stall 3000 1 0", "peer 1 stay 0 0 0"]
+                L += ["connect 0", "sleep 300"] if rng.random() < 0.5 else ["connect 1", "connect 0", "sleep 300"]
+                L += ["halfclose 0", "sleep %d" % gap, "newfb %d %d %d" % (w, h, rng.getrandbits(20)), "sleep 6000", "settle 4000", "shutdown", "cleanup"]
+                out.append(("fam-inflight", "\n".join(L) + "\n", None))
+    # descriptor re-use: the output thread of the leaving client is not scheduled while the input thread
+    # tears the connection down and the next client arrives
+    for lis in (0, 0, 1):
+        for role in ("O",):
+            for gap in (50, 200):
+                L = [_cfg(rng, 128, 128, 2, lis, 300, guards, 2048),
+                     "peer 0 stall 20000 0 0", "peer 1 stay 0 0 0", "connect 0", "sleep 300",
+                     "suspend %s 0" % role, "halfclose 0", "sleep %d" % gap, "connect 1", "sleep 100", "resume %s 0" % role,
+                     "sleep 6000", "mark 1 1 5 5 %d" % rng.getrandbits(20), "settle 4000", "shutdown", "cleanup"]
+                out.append(("fam-inflight", "\n".join(L) + "\n", None))
+    return out
 
 
 def fam_stall(rng, guards):
@@ -473,6 +520,7 @@ def run(ctx):
         reps = 1 if ctx.tier == "quick" else 6
         for _ in range(reps):
             scripts += fam_stall(ctx.rng, base_guards) + fam_iterhold(ctx.rng, base_guards) + fam_newfb(ctx.rng, base_guards)
+            scripts += fam_nonshared(ctx.rng, base_guards) + fam_inflight(ctx.rng, base_guards)
         n = 2000 if ctx.tier == "quick" else 40000
         for k in range(n):
             r = ctx.rng.random()
